@@ -157,4 +157,120 @@ theorem isDigit_not_sep {c : Nat} (h : isDigit c = true) : sylSep c = false ∧ 
   · simp [cliSsvDelim]; omega
   · simp [cliCsvDelim]; omega
 
+/-! ### runs of separators, optional quotes, comments -/
+
+/-- every character of `g` is a separator -/
+def AllSep (sep : Nat → Bool) (g : Text) : Prop := ∀ c ∈ g, sep c = true
+
+theorem tokens_allsep_append {sep : Nat → Bool} : ∀ {g : Text} (b : Text), AllSep sep g →
+    tokens sep (g ++ b) = tokens sep b
+  | [], _, _ => rfl
+  | c :: g, b, h => by
+    rw [List.cons_append, tokens_sep_cons _ (h c (List.mem_cons_self))]
+    exact tokens_allsep_append b (fun x hx => h x (List.mem_cons_of_mem _ hx))
+
+/-- a separator-free piece followed by a non-empty run of separators -/
+theorem tokens_append_gap {sep : Nat → Bool} {a g : Text} (b : Text) (h : SepFree sep a) (hne : a ≠ [])
+    (hg : AllSep sep g) (hgne : g ≠ []) : tokens sep (a ++ g ++ b) = a :: tokens sep b := by
+  cases g with
+  | nil => exact absurd rfl hgne
+  | cons d g =>
+    have : a ++ d :: g ++ b = a ++ d :: (g ++ b) := by simp
+    rw [this, tokens_append_sep _ h hne (hg d (List.mem_cons_self)),
+      tokens_allsep_append b (fun x hx => hg x (List.mem_cons_of_mem _ hx))]
+
+/-- pieces joined by one and the same non-empty run of separators -/
+theorem tokens_joinWith_gap {sep : Nat → Bool} {g : Text} (hg : AllSep sep g) (hgne : g ≠ []) :
+    ∀ (ts : List Text), (∀ t ∈ ts, SepFree sep t ∧ t ≠ []) → tokens sep (joinWith g ts) = ts
+  | [], _ => by simp [joinWith, tokens_nil]
+  | [t], h => by
+    have := h t (List.mem_cons_self)
+    simp [joinWith, tokens_sepfree this.1 this.2]
+  | t :: t' :: rest, h => by
+    have ht := h t (List.mem_cons_self)
+    have ih := tokens_joinWith_gap hg hgne (t' :: rest) (fun x hx => h x (List.mem_cons_of_mem _ hx))
+    have : joinWith g (t :: t' :: rest) = t ++ g ++ joinWith g (t' :: rest) := by simp [joinWith]
+    rw [this, tokens_append_gap _ ht.1 ht.2 hg hgne, ih]
+
+/-- … followed by another run of separators and more text -/
+theorem tokens_joinWith_gap_append {sep : Nat → Bool} {g g' : Text} (hg : AllSep sep g) (hgne : g ≠ [])
+    (hg' : AllSep sep g') (hgne' : g' ≠ []) (b : Text) :
+    ∀ (ts : List Text), (∀ t ∈ ts, SepFree sep t ∧ t ≠ []) →
+      tokens sep (joinWith g ts ++ g' ++ b) = ts ++ tokens sep b
+  | [], _ => by simp [joinWith, tokens_allsep_append b hg']
+  | [t], h => by
+    have := h t (List.mem_cons_self)
+    simp only [joinWith, List.singleton_append]
+    rw [tokens_append_gap _ this.1 this.2 hg' hgne']
+  | t :: t' :: rest, h => by
+    have ht := h t (List.mem_cons_self)
+    have ih := tokens_joinWith_gap_append hg hgne hg' hgne' b (t' :: rest)
+      (fun x hx => h x (List.mem_cons_of_mem _ hx))
+    have : joinWith g (t :: t' :: rest) ++ g' ++ b = t ++ g ++ (joinWith g (t' :: rest) ++ g' ++ b) := by
+      simp [joinWith]
+    rw [this, tokens_append_gap _ ht.1 ht.2 hg hgne, ih]
+    rfl
+
+theorem fields_ne_nil (sep : Nat → Bool) : ∀ s : Text, fields sep s ≠ []
+  | [] => by simp [fields]
+  | c :: cs => by
+    unfold fields
+    split
+    · simp
+    · split <;> simp
+
+/-- a text starting with a non-separator: its first token starts with that character -/
+theorem tokens_head {sep : Nat → Bool} {x : Nat} (c : Text) (hx : sep x = false) :
+    ∃ w rest, tokens sep (x :: c) = (x :: w) :: rest := by
+  cases hf : fields sep c with
+  | nil => exact absurd hf (fields_ne_nil sep c)
+  | cons f fs => exact ⟨f, fs.filter (fun f => !f.isEmpty), by simp [tokens, fields, hx, hf]⟩
+
+theorem dropWhile_append_single {p : Nat → Bool} {x : Nat} (hx : p x = false) :
+    ∀ a : Text, (a ++ [x]).dropWhile p = a.dropWhile p ++ [x]
+  | [] => by simp [List.dropWhile, hx]
+  | c :: a => by
+    by_cases hc : p c = true
+    · simp [List.dropWhile, hc, dropWhile_append_single hx a]
+    · simp [List.dropWhile, hc]
+
+/-- stripping quotes keeps a first character that is not a quote -/
+theorem trimQ_head {x : Nat} (w : Text) (hx : x ≠ cliQuote) : (trimQ (x :: w)).head? = some x := by
+  unfold trimQ
+  have hq : ((x == cliQuote) = false) := by simpa using hx
+  have h1 : (x :: w).dropWhile (· == cliQuote) = x :: w := by simp [List.dropWhile, hq]
+  rw [h1, List.reverse_cons, dropWhile_append_single (p := (· == cliQuote)) hq, List.reverse_append]
+  simp
+
+/-- `"s"` and `s` strip to `s` -/
+def quoteIf (b : Bool) (s : Text) : Text := if b then cliQuote :: (s ++ [cliQuote]) else s
+
+theorem trimQ_quoteIf (b : Bool) {s : Text} (h1 : s.head? ≠ some cliQuote) (h2 : s.getLast? ≠ some cliQuote) :
+    trimQ (quoteIf b s) = s := by
+  cases b with
+  | false => exact trimQ_eq h1 h2
+  | true =>
+    cases s with
+    | nil => decide
+    | cons c cs =>
+      have hc : ((c == cliQuote) = false) := by
+        have : c ≠ cliQuote := fun e => h1 (by simp [e])
+        simpa using this
+      unfold quoteIf trimQ
+      simp only [if_true]
+      have hd : (cliQuote :: (c :: cs ++ [cliQuote])).dropWhile (· == cliQuote) = c :: cs ++ [cliQuote] := by
+        simp [List.dropWhile, hc]
+      rw [hd]
+      have hr : (c :: cs ++ [cliQuote]).reverse.dropWhile (· == cliQuote) = (c :: cs).reverse := by
+        rw [List.reverse_append]
+        have : (c :: cs).reverse.dropWhile (· == cliQuote) = (c :: cs).reverse := by
+          apply dropWhile_head
+          intro a ha
+          rw [List.head?_reverse] at ha
+          have : a ≠ cliQuote := fun e => h2 (e ▸ ha)
+          simpa using this
+        simp only [List.reverse_cons, List.reverse_nil, List.nil_append, List.singleton_append] at this ⊢
+        simp [List.dropWhile, this]
+      rw [hr, List.reverse_reverse]
+
 end Chewing.Cli
